@@ -1,8 +1,232 @@
-//! C17 — stub, to be written.
+//! C17: variable renaming and transfer keep the function or refuse.
+//!
+//!   C17.setnv    <bdd> <new_value>            => <bdd>|panic          set_num_vars
+//!   C17.renvars  <bdd> <k:v,k:v,…|~>          => <bdd>|panic          rename_variables (insertions in order)
+//!   C17.renvar   <bdd> <old> <new>            => <bdd>|panic          rename_variable
+//!   C17.transfer <bdd> <src names> <tgt names> => <bdd>|none|panic    target.transfer_from(bdd, source)
 #[path = "../common.rs"]
 mod common;
+use biodivine_lib_bdd::*;
 use common::*;
+use std::collections::HashMap;
 
-pub fn run(key: &str, _a: &[String], _out: &mut Out) { panic!("unknown key {}", key) }
-pub fn gen(_tier: Tier, _rng: &mut Rng64, _out: &mut Out) {}
+fn s(x: &str) -> String { x.to_string() }
+
+fn parse_names(a: &str) -> Vec<String> {
+    if a == "~" { vec![] } else { a.split(',').map(|x| x.to_string()).collect() }
+}
+fn fmt_names(v: &[String]) -> String { if v.is_empty() { s("~") } else { v.join(",") } }
+fn parse_map(a: &str) -> Vec<(usize, usize)> {
+    if a == "~" { return vec![]; }
+    a.split(',').map(|kv| { let mut it = kv.split(':'); (it.next().unwrap().parse().unwrap(), it.next().unwrap().parse().unwrap()) }).collect()
+}
+fn fmt_map(m: &[(usize, usize)]) -> String {
+    if m.is_empty() { s("~") } else { m.iter().map(|(k, v)| format!("{}:{}", k, v)).collect::<Vec<_>>().join(",") }
+}
+
+pub fn run(key: &str, a: &[String], out: &mut Out) {
+    match key {
+        "C17.setnv" => {
+            let b = Bdd::from_string(&a[0]);
+            let nv: u16 = a[1].parse().unwrap();
+            let res = catch(|| { let mut c = b.clone(); unsafe { c.set_num_vars(nv); } c });
+            out.case(key, a, &[fmt_res_bdd(&res)]);
+        }
+        "C17.renvars" => {
+            let b = Bdd::from_string(&a[0]);
+            let mut map: HashMap<BddVariable, BddVariable> = HashMap::new();
+            for (k, v) in parse_map(&a[1]) { map.insert(var(k), var(v)); }
+            let res = catch(|| { let mut c = b.clone(); unsafe { c.rename_variables(&map); } c });
+            out.case(key, a, &[fmt_res_bdd(&res)]);
+        }
+        "C17.renvar" => {
+            let b = Bdd::from_string(&a[0]);
+            let (old, new): (usize, usize) = (a[1].parse().unwrap(), a[2].parse().unwrap());
+            let res = catch(|| { let mut c = b.clone(); unsafe { c.rename_variable(var(old), var(new)); } c });
+            out.case(key, a, &[fmt_res_bdd(&res)]);
+        }
+        "C17.transfer" => {
+            let b = Bdd::from_string(&a[0]);
+            let (src, tgt) = (parse_names(&a[1]), parse_names(&a[2]));
+            let res = catch(|| {
+                let src_refs: Vec<&str> = src.iter().map(|x| x.as_str()).collect();
+                let tgt_refs: Vec<&str> = tgt.iter().map(|x| x.as_str()).collect();
+                let source = BddVariableSet::new(&src_refs);
+                let target = BddVariableSet::new(&tgt_refs);
+                target.transfer_from(&b, &source)
+            });
+            let obs = match res { Some(Some(r)) => fmt_bdd(&r), Some(None) => s("none"), None => s("panic") };
+            out.case(key, a, &[obs]);
+        }
+        _ => panic!("unknown key {}", key),
+    }
+}
+
+/// all sequences of distinct names over `pool` of every length 0..=pool.len()
+fn all_name_lists(pool: &[&str]) -> Vec<Vec<String>> {
+    fn go(pool: &[&str], cur: &mut Vec<String>, acc: &mut Vec<Vec<String>>) {
+        acc.push(cur.clone());
+        for p in pool {
+            if !cur.iter().any(|c| c == p) {
+                cur.push(p.to_string());
+                go(pool, cur, acc);
+                cur.pop();
+            }
+        }
+    }
+    let mut acc = vec![];
+    go(pool, &mut vec![], &mut acc);
+    acc
+}
+
+/// all partial maps with keys 0..=n and values 0..=n (key n = `num_vars`, value n = out of range)
+fn all_maps(n: usize) -> Vec<Vec<(usize, usize)>> {
+    let base = n + 2; // per key: absent, or one of n+1 values
+    let total = (base as u64).pow((n + 1) as u32);
+    (0..total).map(|mut code| {
+        let mut m = vec![];
+        for k in 0..=n {
+            let d = (code % base as u64) as usize;
+            code /= base as u64;
+            if d > 0 { m.push((k, d - 1)); }
+        }
+        m
+    }).collect()
+}
+
+/// function of the variables in `sub` (strictly increasing), lifted to n variables
+fn lifted_bdd(rng: &mut Rng64, n: usize, sub: &[usize]) -> Bdd {
+    let k = sub.len();
+    let inner = random_tt(rng, k);
+    let tt: TT = (0..(1usize << n)).map(|i| {
+        let v = val_of_index(n, i);
+        let mut j = 0usize;
+        for x in sub { j = (j << 1) | (v[*x] as usize); }
+        inner[j]
+    }).collect();
+    bdd_of_tt(n, &tt)
+}
+fn random_subset(rng: &mut Rng64, n: usize, k: usize) -> Vec<usize> {
+    let mut all: Vec<usize> = (0..n).collect();
+    while all.len() > k { let i = rng.below(all.len() as u64) as usize; all.remove(i); }
+    all
+}
+
+const INVALID: [&str; 8] = [
+    "|2,0,0|2,1,1|5,0,1|",            // variable out of range
+    "|2,0,0|2,1,1|1,0,1|0,2,1|1,3,0|", // not ordered along an edge
+    "|3,0,0|3,1,1|1,0,1|1,2,0|",      // same variable on parent and child
+    "|3,0,0|2,1,1|0,0,1|",            // terminals disagree
+    "|2,0,0|2,1,1|0,0,7|",            // link out of range
+    "|3,0,0|3,1,1|3,0,1|",            // decision node on num_vars
+    "|2,0,0|2,1,1|0,1,1|",            // redundant test (valid, not reduced)
+    "|1,0,0|",                        // false over one variable
+];
+
+pub fn gen(tier: Tier, rng: &mut Rng64, out: &mut Out) {
+    let thorough = tier == Tier::Thorough;
+    let pool = ["a", "b", "c", "d"];
+    let targets = all_name_lists(&pool);
+    // ---------------- exhaustive small universes: all functions over n <= 3 variables
+    for n in 0..=3usize {
+        let count = 1u64 << (1u64 << n);
+        let funcs: Vec<String> = (0..count).map(|t| fmt_bdd(&bdd_of_tt(n, &tt_from_index(n, t)))).collect();
+        let maps = all_maps(n);
+        let src: Vec<String> = pool[..n].iter().map(|x| x.to_string()).collect();
+        let sources: Vec<Vec<String>> = targets.iter().filter(|t| t.len() == n).cloned().collect();
+        for f in &funcs {
+            for nv in 0..=(n + 2) { run("C17.setnv", &[f.clone(), nv.to_string()], out); }
+            for old in 0..=n { for new in 0..=n { run("C17.renvar", &[f.clone(), old.to_string(), new.to_string()], out); } }
+            for m in &maps {
+                if thorough || n < 3 || rng.chance(1, 26) { run("C17.renvars", &[f.clone(), fmt_map(m)], out); }
+            }
+            for t in &targets {
+                if thorough || n < 3 || rng.chance(1, 3) { run("C17.transfer", &[f.clone(), fmt_names(&src), fmt_names(t)], out); }
+                // reordered source sets: same pairs up to a bijection of names, kept as a sampled cross-check
+                if (thorough && n == 3) || rng.chance(1, 40) {
+                    for sperm in &sources {
+                        if thorough || rng.chance(1, 6) { run("C17.transfer", &[f.clone(), fmt_names(sperm), fmt_names(t)], out); }
+                    }
+                }
+            }
+            // source set shorter / longer than the variable count (name_of may panic)
+            if n > 0 && rng.chance(1, 4) {
+                let short: Vec<String> = src[..n - 1].to_vec();
+                run("C17.transfer", &[f.clone(), fmt_names(&short), fmt_names(rng.pick(&targets[..]))], out);
+                let mut long = src.clone(); long.push(s("z"));
+                run("C17.transfer", &[f.clone(), fmt_names(&long), fmt_names(rng.pick(&targets[..]))], out);
+            }
+        }
+    }
+    // ---------------- random functions over 4-6 variables, with level gaps and non-canonical layouts
+    let rounds = if thorough { 40000 } else { 1500 };
+    for _ in 0..rounds {
+        let n = 4 + rng.below(3) as usize;
+        let k = rng.below(n as u64 + 1) as usize;
+        let sub = random_subset(rng, n, k);
+        let mut b = if rng.chance(2, 3) { lifted_bdd(rng, n, &sub) } else { random_bdd(rng, n) };
+        if rng.chance(1, 5) { b = noncanon_variant(rng, &b); }
+        let f = fmt_bdd(&b);
+        let support: Vec<usize> = { let mut v: Vec<usize> = b.support_set().into_iter().map(|x| x.to_index()).collect(); v.sort(); v };
+        // set_num_vars around the largest used variable and around n
+        let top = support.last().map(|x| x + 1).unwrap_or(0);
+        for nv in [top.saturating_sub(1), top, top + 1, n + 1 + rng.below(3) as usize, rng.below(n as u64 + 2) as usize] {
+            if rng.chance(1, 2) { run("C17.setnv", &[f.clone(), nv.to_string()], out); }
+        }
+        if rng.chance(1, 50) { run("C17.setnv", &[f.clone(), s("65535")], out); }
+        // rename_variable: every pair touching the support's neighbourhood, sampled
+        for _ in 0..4 {
+            let old = rng.below(n as u64 + 1) as usize;
+            let new = rng.below(n as u64 + 1) as usize;
+            run("C17.renvar", &[f.clone(), old.to_string(), new.to_string()], out);
+        }
+        if let Some(x) = support.first() {
+            // into a free slot next to a support variable (the accepting case)
+            let free: Vec<usize> = (0..n).filter(|y| !support.contains(y)).collect();
+            if !free.is_empty() { run("C17.renvar", &[f.clone(), x.to_string(), rng.pick(&free).to_string()], out); }
+            let y = *rng.pick(&support);
+            if !free.is_empty() { run("C17.renvar", &[f.clone(), y.to_string(), rng.pick(&free).to_string()], out); }
+        }
+        // rename_variables: order-preserving map of the support onto another subset, then perturbed
+        for _ in 0..3 {
+            let tsub = random_subset(rng, n, support.len());
+            let mut m: Vec<(usize, usize)> = support.iter().cloned().zip(tsub.iter().cloned()).filter(|(a, b)| a != b || rng.chance(1, 4)).collect();
+            match rng.below(6) {
+                0 => { if m.len() >= 2 { let i = rng.below(m.len() as u64 - 1) as usize; let t = m[i].1; m[i].1 = m[i + 1].1; m[i + 1].1 = t; } }
+                1 => { m.push((n, rng.below(n as u64) as usize)); }                       // key num_vars (F7)
+                2 => { let free: Vec<usize> = (0..n).filter(|y| !support.contains(y)).collect();
+                       if !free.is_empty() { m.push((*rng.pick(&free), rng.below(n as u64 + 1) as usize)); } } // key outside the support
+                3 => { if !m.is_empty() { let i = rng.below(m.len() as u64) as usize; m[i].1 = n + rng.below(2) as usize; } } // value out of range
+                4 => { if !m.is_empty() { let i = rng.below(m.len() as u64) as usize; let kv = (m[i].0, rng.below(n as u64) as usize); m.push(kv); } } // key inserted twice
+                _ => {}
+            }
+            run("C17.renvars", &[f.clone(), fmt_map(&m)], out);
+        }
+        // transfer: names x0.., target = sub-sequence containing the support (+ extra names), then perturbed
+        let src: Vec<String> = (0..n).map(|i| format!("x{}", i)).collect();
+        for _ in 0..3 {
+            let mut tgt: Vec<String> = vec![];
+            for i in 0..n {
+                if rng.chance(1, 4) { tgt.push(format!("y{}", i)); }
+                if support.contains(&i) || rng.chance(1, 2) { tgt.push(src[i].clone()); }
+            }
+            match rng.below(5) {
+                0 => { if tgt.len() >= 2 { let i = rng.below(tgt.len() as u64 - 1) as usize; tgt.swap(i, i + 1); } }
+                1 => { if !tgt.is_empty() { let i = rng.below(tgt.len() as u64) as usize; tgt.remove(i); } }
+                2 => { tgt.reverse(); }
+                _ => {}
+            }
+            run("C17.transfer", &[f.clone(), fmt_names(&src), fmt_names(&tgt)], out);
+        }
+    }
+    // ---------------- separate stream: inputs that are not valid diagrams (only model agreement is compared)
+    for b in INVALID {
+        let n: usize = 3;
+        for nv in 0..=4 { run("C17.setnv", &[s(b), nv.to_string()], out); }
+        for old in 0..=n { for new in 0..=n { run("C17.renvar", &[s(b), old.to_string(), new.to_string()], out); } }
+        for m in all_maps(2) { if rng.chance(1, 2) { run("C17.renvars", &[s(b), fmt_map(&m)], out); } }
+        for t in &targets { if rng.chance(1, 4) { run("C17.transfer", &[s(b), s("a,b,c"), fmt_names(t)], out); } }
+    }
+}
+
 fn main() { harness_main(gen, run) }
